@@ -9,6 +9,7 @@ import (
 	"errors"
 	"fmt"
 	"os"
+	"reflect"
 	"runtime"
 	"sort"
 	"strings"
@@ -22,6 +23,7 @@ import (
 	abci "github.com/tendermint/tendermint/abci/types"
 	"github.com/tendermint/tendermint/config"
 	"github.com/tendermint/tendermint/crypto/ed25519"
+	"github.com/tendermint/tendermint/libs/clist"
 	"github.com/tendermint/tendermint/libs/log"
 	"github.com/tendermint/tendermint/mempool"
 	mempoolv0 "github.com/tendermint/tendermint/mempool/v0"
@@ -400,16 +402,14 @@ type sim struct {
 	admitEp         map[int]int64 // epoch of the request whose accepting response was delivered last
 	nUpdates        int
 	commitErr       error
-	flushedInflight bool        // Flush was called while requests were unanswered
-	pendingRm       []int       // cache removals of responses that are delivered but possibly not processed yet
-	tainted         bool        // a known duplicate-class finding was hit: C12 oracles are off for the rest of the run
-	dupSuspect      map[int]int // how often it was accepted again while in the pool
+	flushedInflight bool  // Flush was called while requests were unanswered
+	pendingRm       []int // cache removals of responses that are delivered but possibly not processed yet
 }
 
 func newSim(env *simcore.Env, cfg simcore.Op) simcore.Sim {
 	s := &sim{env: env, cfg: cfg, ver: cfg.Int("ver"), index: map[string]int{}, committedOK: map[int]bool{},
 		tracked: map[int]*track{}, admitV: map[int]verdict{}, admitCom: map[int]bool{}, delivNew: map[int]bool{},
-		comRem: map[int]bool{}, comAt: map[int]int64{}, admitEp: map[int]int64{}, dupSuspect: map[int]int{}, opsLeft: cfg.Int("nops"), commitGate: make(chan struct{})}
+		comRem: map[int]bool{}, comAt: map[int]int64{}, admitEp: map[int]int64{}, opsLeft: cfg.Int("nops"), commitGate: make(chan struct{})}
 	s.vn = fmt.Sprintf("v%d", s.ver)
 	for i, n := range cfg.Ints("lens") {
 		if n < 1 {
@@ -769,7 +769,7 @@ func (s *sim) idle() bool {
 // ---------------------------------------------------------------- op generation
 
 func (s *sim) Next(rng *simcore.RNG) simcore.Op {
-	if s.opsLeft <= 0 || s.tainted && !s.env.Checking("C05") {
+	if s.opsLeft <= 0 {
 		return nil
 	}
 	s.opsLeft--
@@ -791,7 +791,7 @@ func (s *sim) Next(rng *simcore.RNG) simcore.Op {
 	if commitActive && s.commitParked.Load() {
 		w[3] = 30
 	}
-	if !s.lockHeld() && s.mutexW == 0 && !s.tainted && s.env.Checking("C12") {
+	if !s.lockHeld() && s.mutexW == 0 && s.env.Checking("C12") {
 		w[4], w[5] = 6, 6
 	}
 	if s.idle() {
@@ -954,13 +954,13 @@ func (s *sim) Apply(op simcore.Op) bool {
 		s.settle()
 		e.Count("op.rel")
 	case "reap":
-		if s.lockHeld() || s.mutexW > 0 || s.tainted || !e.Checking("C12") {
+		if s.lockHeld() || s.mutexW > 0 || !e.Checking("C12") {
 			return false
 		}
 		s.checkReapMaxTxs(op.Int("n"))
 		e.Count("op.reap")
 	case "reapbg":
-		if s.lockHeld() || s.mutexW > 0 || s.tainted || !e.Checking("C12") {
+		if s.lockHeld() || s.mutexW > 0 || !e.Checking("C12") {
 			return false
 		}
 		s.checkReapBytesGas(op.Int64("bytes"), op.Int64("gas"))
@@ -1089,7 +1089,6 @@ func (s *sim) deliverHead() {
 			}
 			if s.tracked[r.txi] != nil || pending {
 				// accepted although (as far as the last observation goes) it is in the pool already
-				s.dupSuspect[r.txi]++
 				e.Count("probe.accept_while_in_pool")
 			}
 			s.admit = append(s.admit, r.txi)
@@ -1315,6 +1314,8 @@ func (s *sim) after(op simcore.Op) bool {
 	// 4. pool contents
 	if !s.lockHeld() && s.mutexW == 0 {
 		s.observe()
+	} else {
+		s.listDup()
 	}
 	_, _, nq := s.conn.counts()
 	e.Logf(" queue=%d mutexwaiters=%d phase=%s parked=%v", nq, s.mutexW, s.phaseTag(), s.commitParked.Load())
@@ -1337,9 +1338,6 @@ func (s *sim) reapAll() ([]int, types.Txs) {
 // observe evaluates the C12 invariants on the pool as ReapMaxTxs(-1) shows it.
 func (s *sim) observe() {
 	e := s.env
-	if s.tainted {
-		return
-	}
 	if !e.Checking("C12") {
 		// C05-only run: just keep the workload generator informed
 		all := s.mp.ReapMaxTxs(-1)
@@ -1356,55 +1354,45 @@ func (s *sim) observe() {
 		return
 	}
 	idx, all := s.reapAll()
-	// uniqueness
+	// uniqueness: by evidence only. ReapMaxTxs(-1) shows a second copy in v0; v1 reaps through
+	// its key index, so the list itself is walked: a tx twice in the list, or a list element
+	// the key index no longer knows (what is left of a duplicate once one copy was removed by
+	// key), is a duplicate.
 	seen := map[int]bool{}
 	dup := false
 	for _, i := range idx {
 		if seen[i] {
 			dup = true
-			s.dupFail("%s: the pool holds tx%d twice: %v (cache=%d size=%d)", s.vn, i, idx, s.mcfg.CacheSize, s.mcfg.Size)
-			if s.tainted {
-				return
-			}
+			s.dupFail("%s: ReapMaxTxs(-1) returns tx%d twice: %v (cache=%d size=%d)", s.vn, i, idx, s.mcfg.CacheSize, s.mcfg.Size)
 		}
 		seen[i] = true
+	}
+	list := s.listTxs()
+	inList := map[int]int{}
+	for _, i := range list {
+		inList[i]++
+		if inList[i] == 2 && !dup {
+			dup = true
+			s.dupFail("%s: the transaction list holds tx%d twice: list %v, ReapMaxTxs(-1) %v, Size()=%d SizeBytes()=%d (cache=%d size=%d)", s.vn, i, list, idx, s.mp.Size(), s.mp.SizeBytes(), s.mcfg.CacheSize, s.mcfg.Size)
+		}
+		if !seen[i] && !dup {
+			dup = true
+			s.dupFail("%s: the transaction list holds tx%d, which the key index does not know (left over from a second copy): list %v, ReapMaxTxs(-1) %v, Size()=%d SizeBytes()=%d (cache=%d size=%d)", s.vn, i, list, idx, s.mp.Size(), s.mp.SizeBytes(), s.mcfg.CacheSize, s.mcfg.Size)
+		}
 	}
 	// Size / SizeBytes equal a recount
 	var bytesSum int64
 	for _, tx := range all {
 		bytesSum += int64(len(tx))
 	}
-	if n, b := s.mp.Size(), s.mp.SizeBytes(); n != len(all) || b != bytesSum {
-		// v1 reaps through its key index, which hides a second copy in the list: if the surplus is
-		// exactly one more copy of transactions that were accepted while in the pool it is the
-		// duplicate class
-		var extraN int
-		var extraB int64
-		var twice []int
-		for i := range s.univ {
-			if k := s.dupSuspect[i]; k > 0 {
-				extraN += k
-				extraB += int64(k * len(s.univ[i]))
-				twice = append(twice, i)
-			}
-		}
-		if !dup && extraN > 0 && n-len(all) <= extraN && n > len(all) && b-bytesSum <= extraB && b > bytesSum {
-			s.dupFail("%s: Size()=%d SizeBytes()=%d but ReapMaxTxs(-1) returns %d txs %v with %d bytes: txs %v were accepted a second time while in the pool and are held twice (cache=%d size=%d)", s.vn, n, b, len(all), idx, bytesSum, twice, s.mcfg.CacheSize, s.mcfg.Size)
-			if s.tainted {
-				return
-			}
-		} else {
-			e.Fail("C12", s.vn+"-size-mismatch", "%s: Size()=%d SizeBytes()=%d but ReapMaxTxs(-1) returns %d txs %v with %d bytes", s.vn, n, b, len(all), idx, bytesSum)
-		}
+	if n, b := s.mp.Size(), s.mp.SizeBytes(); (n != len(all) || b != bytesSum) && !dup {
+		e.Fail("C12", s.vn+"-size-mismatch", "%s: Size()=%d SizeBytes()=%d but ReapMaxTxs(-1) returns %d txs %v with %d bytes (list %v)", s.vn, n, b, len(all), idx, bytesSum, list)
 	}
 	// a committed tx is gone
 	for _, i := range s.justCom {
 		if seen[i] {
-			if s.dupSuspect[i] > 0 {
-				s.dupFail("%s: tx%d was in the pool twice (accepted a second time while in the pool, cache=%d size=%d); the update for height %d, which committed it, removed one copy only", s.vn, i, s.mcfg.CacheSize, s.mcfg.Size, s.height)
-				if s.tainted {
-					return
-				}
+			if dup {
+				// reported above
 			} else if s.admitCom[i] {
 				e.Fail("C12", s.vn+"-committed-tx-readmitted-inflight", "%s: tx%d was committed at height %d and is in the pool afterwards (its CheckTx was answered while the commit held the lock and was applied after the update)", s.vn, i, s.height)
 			} else {
@@ -1449,8 +1437,6 @@ func (s *sim) observe() {
 			delete(s.tracked, i)
 		}
 	}
-	// sizes agree and nothing is held twice: no hidden copies
-	s.dupSuspect = map[int]int{}
 	for _, i := range idx {
 		if s.tracked[i] == nil {
 			e.Fail("C12", s.vn+"-unaccepted-tx", "%s: tx%d is in the pool although no accepting CheckTx response for it was delivered", s.vn, i)
@@ -1506,14 +1492,38 @@ func (s *sim) observe() {
 	}
 }
 
-// dupFail reports the duplicate class. If it is a listed known finding the run goes on for
-// C05 only: the pool is corrupt from here on (one copy is invisible to the key index and
-// survives removal), so further C12 verdicts on this run would be consequences, not findings.
+// dupFail reports the duplicate class (only ever called with a second copy in evidence).
 func (s *sim) dupFail(format string, a ...any) {
 	s.env.Count("probe.dup_seen")
 	s.env.Fail("C12", s.dupSig(), format, a...)
-	if s.env.Checking("C12") {
-		s.tainted = true
+}
+
+type fronter interface{ TxsFront() *clist.CElement }
+
+// listTxs walks the mempool's transaction list (the one the reactor gossips from). It needs
+// no lock, so it also works while the commit actor holds the mempool lock.
+func (s *sim) listTxs() []int {
+	var out []int
+	for e := s.mp.(fronter).TxsFront(); e != nil; e = e.Next() {
+		f := reflect.ValueOf(e.Value).Elem().FieldByName("tx") // *v0.mempoolTx / *v1.WrappedTx
+		out = append(out, s.txIndex(f.Bytes()))
+	}
+	return out
+}
+
+// listDup: a transaction twice in the list (checked after every step, also under the lock:
+// in v0 an update that follows would remove one copy again before the pool can be reaped).
+func (s *sim) listDup() {
+	if !s.env.Checking("C12") {
+		return
+	}
+	list := s.listTxs()
+	cnt := map[int]int{}
+	for _, i := range list {
+		cnt[i]++
+		if cnt[i] == 2 {
+			s.dupFail("%s: the transaction list holds tx%d twice: list %v, Size()=%d SizeBytes()=%d (cache=%d size=%d)", s.vn, i, list, s.mp.Size(), s.mp.SizeBytes(), s.mcfg.CacheSize, s.mcfg.Size)
+		}
 	}
 }
 
@@ -1650,7 +1660,7 @@ func (s *sim) Finish() {
 	if s.env.Failed() {
 		return
 	}
-	if !s.lockHeld() && s.mutexW == 0 && !s.tainted && s.env.Checking("C12") {
+	if !s.lockHeld() && s.mutexW == 0 && s.env.Checking("C12") {
 		s.checkReapMaxTxs(-1)
 		s.checkReapBytesGas(-1, -1)
 		for _, a := range s.subs {
